@@ -48,3 +48,84 @@ package shell_operator
 //@     invariant [no-step-after-failure] lastFailedMsg == ""
 //@   loop 2
 //@     invariant [no-step-after-failure] lastFailedMsg == ""
+
+// =================================================================================================
+// taskHandleHookRun: status table, retry keeps the combined contexts, rate-limit token, unlock.
+// Ghost log (defined by the trusted contracts below; exists only in the logic).
+
+//@ ghost nRun int
+//@ ghost ranContexts []bindingcontext.BindingContext
+//@ ghost ranErr error
+//@ ghost nCombine int
+//@ ghost lastCombine *CombineResult
+//@ ghost allMergedAllowFailure bool
+//@ ghost nUpdateMeta int
+//@ ghost lastMeta interface{}
+//@ ghost nUnlock int
+//@ ghost lastWaitHook *hook.Hook
+//@ ghost lastWaitErr error
+
+// handleRunHook executes the hook with the contexts of hookMeta (C12 covers its inside). It needs
+// the rate-limit token of this very hook (C18) and consumes it.
+//@ trusted func (*ShellOperator).handleRunHook
+//@   requires [rate-limit-token] lastWaitHook == taskHook && lastWaitErr == nil && taskHook != nil
+//@   modifies nRun, ranContexts, ranErr, lastWaitHook
+//@   ghostset nRun := nRun + 1
+//@   ghostset ranContexts := hookMeta.BindingContext
+//@   ghostset lastWaitHook := nil
+//@   ensures ranErr == result
+
+// combineBindingContextForHook (C07): here only its ghost trace; allMergedAllowFailure says whether
+// every task merged into the head allows failure.
+//@ trusted func (*ShellOperator).combineBindingContextForHook
+//@   modifies nCombine, lastCombine, allMergedAllowFailure
+//@   ghostset nCombine := nCombine + 1
+//@   ensures lastCombine == result
+
+//@ package github.com/flant/shell-operator/pkg/task
+// Assumed type invariant of task metadata: a HookRun task of a kubernetes binding carries at least
+// one binding context (tasks are built from kube events, which have one context per watch event).
+//@ trusted func Task.GetMetadata
+//@   modifies nothing
+//@   ensures dyntype(result, task_metadata.HookMetadata) && result.(task_metadata.HookMetadata).BindingType == "kubernetes" ==> len(result.(task_metadata.HookMetadata).BindingContext) > 0
+//@ trusted func Task.UpdateMetadata
+//@   modifies shell_operator.nUpdateMeta, shell_operator.lastMeta
+//@   ghostset shell_operator.nUpdateMeta := shell_operator.nUpdateMeta + 1
+//@   ghostset shell_operator.lastMeta := arg0
+//@ package github.com/flant/shell-operator/pkg/hook
+//@ trusted func (*Hook).RateLimitWait
+//@   modifies shell_operator.lastWaitHook, shell_operator.lastWaitErr
+//@   ensures shell_operator.lastWaitHook == h && shell_operator.lastWaitErr == result
+//@ trusted func (*Manager).GetHook
+//@   modifies nothing
+//@   ensures result != nil && result.Config != nil && result.HookController != nil
+//@ package github.com/flant/shell-operator/pkg/hook/controller
+//@ trusted func (*HookController).UnlockKubernetesEventsFor
+//@   modifies shell_operator.nUnlock
+//@   ghostset shell_operator.nUnlock := shell_operator.nUnlock + 1
+//@ package github.com/flant/shell-operator/pkg/utils/measure
+//@ trusted func Duration
+//@   modifies nothing
+//@ package github.com/flant/shell-operator/pkg/shell-operator
+
+// C04: status table of one hook run; after a failed combined run the task keeps the combined
+// binding contexts (the retry executes them again). C18: the run is preceded by a successful
+// rate-limit wait of the same hook. C01/C06: monitors are unlocked only after a successful
+// Synchronization.
+//@ func (*ShellOperator).taskHandleHookRun
+//@   prop C04, C18, C14
+//@   requires op.HookManager != nil && op.TaskQueues != nil && t != nil
+//@   modifies nRun, ranContexts, ranErr, nCombine, lastCombine, allMergedAllowFailure, nUpdateMeta, lastMeta, nUnlock, lastWaitHook, lastWaitErr
+//@   ensures [at-most-one-run]      nRun == old(nRun) || nRun == old(nRun) + 1
+//@   ensures [status/skipped]       nRun == old(nRun) ==> result.Status == "Success" || result.Status == "Repeat"
+//@   ensures [status/repeat]        result.Status == "Repeat" ==> nRun == old(nRun) && lastWaitErr != nil
+//@   ensures [status/ok]            nRun == old(nRun) + 1 && ranErr == nil ==> result.Status == "Success"
+//@   ensures [status/failed]        nRun == old(nRun) + 1 && ranErr != nil ==> result.Status == "Success" || result.Status == "Fail"
+//@   ensures [ran-combined]         nRun == old(nRun) + 1 && nCombine == old(nCombine) + 1 && lastCombine != nil ==> ranContexts == lastCombine.BindingContexts
+//@   ensures [retry-keeps-contexts] nCombine == old(nCombine) + 1 && lastCombine != nil ==> nUpdateMeta > old(nUpdateMeta) && dyntype(lastMeta, task_metadata.HookMetadata)
+//@        && lastMeta.(task_metadata.HookMetadata).BindingContext == lastCombine.BindingContexts
+//@   ensures [allow-merged]         nRun == old(nRun) + 1 && ranErr != nil && result.Status == "Success" && nCombine == old(nCombine) + 1 && lastCombine != nil ==> allMergedAllowFailure
+//@   ensures [unlock-after-success] nUnlock > old(nUnlock) ==> result.Status == "Success"
+//@   ensures [no-extra-tasks]       len(result.HeadTasks) == 0 && len(result.TailTasks) == 0 && len(result.AfterTasks) == 0
+//@   loop 1
+//@     invariant nUnlock >= old(nUnlock) && res.Status == "Success"
